@@ -10,6 +10,11 @@ claimed = {
  "C13": ("worker pool driven through Serve with MaxWorkersCount 1-3 and short MaxIdleWorkerDuration: task census by spawn site at every scheduler step (bound), served-once/lost-connection oracle, idle retirement and no survivor after Stop, on the fake clock", "6/C13"),
  "C14": ("per-connection ConnState sequences checked against the documented automaton for silent, partial, pipelined, erroneous, hijacked, timed-out and rejected connections (Serve and ServeConn, ReduceMemoryUsage on/off, MaxConnsPerIP), plus StateActive-needs-a-byte measured on the simulated transport", "6/C14"),
  "C15": ("Shutdown at a seeded instant raced against slow handlers, idle keep-alive, silent, partial and pipelined connections at lock/atomic granularity: listener closed, Serve returned, no handler running, every started handler's response delivered, Done closed, idle connections not waited for; panics of server goroutines are violations", "6/C15"),
+ "C03": ("handler programs over the response API (status 200-999, message, Set/Add headers, cookies, SetBody/Append/Raw, SetBodyStream with exact/short/long/unknown size, stream writers with flush patterns, Connection: close) for GET/HEAD/POST on HTTP/1.0 and 1.1, pipelined or sequential, against client read pacing (tiny receive windows), latency and short reads; wire parsed by net/http and compared with a model of the program", "6/C03"),
+ "C34": ("instrumented body streams (chunked reads, error or panic at any offset, declared size equal/shorter/longer) as response streams, with client aborts mid-response; byte equality, declared-size bound, close-exactly-once and no-read-after-close accounting after the connection is finished", "6/C34"),
+ "C11": ("request histories over 2-4 connections (normal, form, multipart, timeout, hijack, expectation-rejected, malformed) with adversarial sync.Pool (any retained or fresh object), handlers that snapshot and then mutate every reachable part of RequestCtx; snapshot-vs-sent and response-vs-own-handler oracles", "6/C11"),
+ "C16": ("TimeoutHandler/TimeoutWithCodeHandler and explicit TimeoutError around handlers that keep mutating ctx after the timeout, timeouts 1 ms-1 s with handler durations at, just below and above them, several requests per connection, small Concurrency; response must be own output, exact timeout response or 429", "6/C16"),
+ "C17": ("hijacking request followed by 0-9000 tail bytes arriving in the same segment, partly buffered or later, after 0-2 ordinary requests; ReduceMemoryUsage, HijackSetNoResponse, KeepHijackedConns; response-before-handover on the tap, tail byte equality, per-connection foreign-operation counter on the simulated socket", "6/C17"),
  "C33": ("PipeConns stream equality and Close semantics, InmemoryListener Dial/Accept/Close pairing, under seeded interleavings of writers, readers, deadlines and closers at every channel/select/mutex operation", "6/C33"),
 }
 na = {
